@@ -21,9 +21,9 @@ def valid_resume_state(dst_root, src_root, completed, delete=False):
           "total_files": len(completed) + 3, "total_bytes_transferred": len(completed)}
     open(os.path.join(dst_root, ".sy-state.json"), "w").write(json.dumps(st))
 
-def damage(rng, dst_root, tag, delete=False):
+def damage(rng, dst_root, tag, delete=False, force=None):
     name = rng.pick(OWN); p = os.path.join(dst_root, name)
-    kind = rng.pick(DAMAGE)
+    kind = force or rng.pick(DAMAGE)
     if kind == "valid-resume-state":
         # lists every current source file as completed: whatever was edited since must still be compared and transferred
         src_root = os.path.join(os.path.dirname(dst_root), "src"); done = []
@@ -138,7 +138,11 @@ def run(tier="quick", seed=1, work=None, replay=None, focus="C18", ncases=None):
                         # the same edit in both worlds (same PRNG)
                         ra, rb = Rng(r.s), Rng(r.s)
                         oa = edit(ra, os.path.join(A, "src"), clock); ob = edit(rb, os.path.join(B, "src"), clock); ops.append(oa)
-                    if rng.chance(1, 3): ops.append("sabotage:" + damage(rng, os.path.join(A, "dst"), st, delete=("--delete" in common)))
+                    if ci % 3 == 1 and st == steps - 1 and "--resume" not in " ".join(x for x in mech if x == "false"):
+                        # every third history ends with a VALID, compatible resume state that lists every current source file as
+                        # completed, left just before the last sync (after that step's edits): the edits must still arrive
+                        ops.append("sabotage:" + damage(rng, os.path.join(A, "dst"), st, delete=("--delete" in common), force="valid-resume-state"))
+                    elif rng.chance(1, 3): ops.append("sabotage:" + damage(rng, os.path.join(A, "dst"), st, delete=("--delete" in common)))
                 hist.append(ops)
                 # a damaged cache file stays damaged (and is read as empty) until a successful run saves a new one
                 if any(o.startswith("sabotage:.sy-dir-cache.json") for o in ops): cache_damaged = True
